@@ -133,7 +133,7 @@ func bgvLeaf(c *engine.Chooser, scName string, cfg *bgvCfg) {
 	maps := mappings()
 	if cfg.declareEach {
 		// probe scenario: every polynomial of the mixed vector declares its own parity
-		maps = append(maps, mapping{"mixed-parity-declared", 3, thirds, true, true})
+		maps = append(maps, mapping{"mixed-parity-declared", 3, thirds, true, true, false})
 	}
 	sh := cfg.shapes[c.ChooseFree(len(cfg.shapes), "shape")]
 	kind := 0
